@@ -100,6 +100,14 @@ def get_checkpoint_dict(agent: SelfEvolvableAlgorithm) -> Dict[str, Any]:
     """
     attribute_dict = EvolvableAlgorithm.inspect_attributes(agent)
 
+    # Attributes that reference torch modules (e.g. a layer of one of the networks) are
+    # re-derived by the algorithm itself and must not be pickled as detached copies
+    attribute_dict = {
+        attr: value
+        for attr, value in attribute_dict.items()
+        if not isinstance(value, torch.nn.Module)
+    }
+
     # Extract info on evolvable modules and optimizers in the algorithm
     network_info: Dict[str, Dict[str, Any]] = {"modules": {}, "optimizers": {}}
     for attr in agent.evolvable_attributes():
